@@ -289,6 +289,32 @@ theorem exch2 (A : Nat → List α → α) (pw : World (List (Nat × List α)))
   rw [column_blocks2 A pw s hs', Refine.Lemmas.DistGhostFull.getD_lt _ _ hs']
   rw [flatten_flatten_singletons (List.range pw.length) (fun r => bucket r pw[s]) A]
 
+/-- the two exchanges with the rank count as a separate name (`np = pw.length`) -/
+theorem exch1_np (np : Nat) (pw : World (List (Nat × List α))) (hnp : pw.length = np)
+    (hd : ∀ pairs ∈ pw, ∀ x ∈ pairs, x.1 < np) (hi : ∀ pairs ∈ pw, ∀ x ∈ pairs, x.2.length = 3)
+    (hsend : ∀ pairs ∈ pw, (3 : Int) * pairs.length ≤ Comm.INT_MAX)
+    (hrecv : ∀ r, r < np → (3 : Int) * (delivered r pw).length ≤ Comm.INT_MAX) :
+    alltoallv false RefType.dbl 0 3
+        (((pw.map blindOf).zip (mpiAlltoall ((pw.map blindOf).map fun b => countDest np b.proc))).map
+          fun x => blindArgs 3 np x.1 x.2)
+      = some ((List.range np).map fun r => (Comm.Status.ok, (delivered r pw).flatten)) := by
+  subst hnp
+  exact exch1 pw hd hi hsend hrecv
+
+theorem exch2_np (np : Nat) (A : Nat → List α → α) (pw : World (List (Nat × List α))) (hnp : pw.length = np)
+    (hd : ∀ pairs ∈ pw, ∀ x ∈ pairs, x.1 < np)
+    (hsend : ∀ pairs ∈ pw, (pairs.length : Int) ≤ Comm.INT_MAX)
+    (hrecv : ∀ r, r < np → ((delivered r pw).length : Int) ≤ Comm.INT_MAX) :
+    alltoallv false RefType.dbl 0 1
+        ((((List.range np).map fun r => (delivered r pw).map (A r)).zip
+            (((pw.map blindOf).map fun b => countDest np b.proc).zip
+              (mpiAlltoall ((pw.map blindOf).map fun b => countDest np b.proc)))).map fun x =>
+          (⟨x.1, x.2.2, List.replicate (isum x.2.1).toNat default, x.2.1⟩ : A2A α))
+      = some ((List.range np).map fun s =>
+          (Comm.Status.ok, (List.range np).flatMap fun q => (bucket q (pw.getD s [])).map (A q))) := by
+  subst hnp
+  exact exch2 A pw hd hsend hrecv
+
 /-! ## reading the answers back: the second `a_next` walk -/
 
 /-- the answers rank `me` expects from rank `q`, in the order it sent the queries -/
